@@ -286,3 +286,74 @@ def stream_thirdparty(c, N, tmp):
             c.disagree("pi read (third-party) raise/value", rep, mo, first)
         elif P.canon_store(mo) != P.canon_store(first):
             c.disagree("pi read (third-party)", rep, mo, first)
+
+
+# ---------------------------------------------------------------------------------------------
+# dedicated probes of the listed known findings of write() on an object read from a file (F57, F58, F59);
+# these input classes are kept out of the re-write step of the main stream above
+
+
+def probes(c, tmp):
+    import rtctools.data.pi as pi
+    import rtctools.data.rtc as rtc
+
+    ids = P.Ids(["A", "B"], {"A": ("L", "PA", []), "B": ("L", "PB", [])})
+    H = 3600
+
+    def hdr(var, mem, step, start, stop):
+        return {"var": var, "member": mem, "step": step, "start": start, "stop": stop, "forecast": None,
+                "miss": xv(-999.0), "unit": "m"}
+
+    def roundtrip(name, f, binary):
+        d = os.path.join(tmp, name)
+        d2 = os.path.join(d, "out")
+        os.makedirs(d2)
+        with open(os.path.join(d, "rtcDataConfig.xml"), "w") as fh:
+            fh.write(ids.config_xml())
+        P.write_file(d, "ts", f, ids)
+
+        def real():
+            dc = rtc.DataConfig(d)
+            with warnings.catch_warnings():
+                warnings.simplefilter("ignore")
+                r = pi.Timeseries(dc, d, "ts", binary=binary)
+                first = P.real_to_store(r, ids)
+                r.write(output_folder=d2, output_filename="ts")
+                second = P.real_to_store(pi.Timeseries(dc, d2, "ts", binary=binary), ids)
+            return first, second
+
+        res = call(real)
+        shutil.rmtree(d, ignore_errors=True)
+        c.count(("probe", name))
+        return res
+
+    def show(st):
+        return {"times": st["times"], "slots": [{e["var"]: [float(unfr(x)) for x in e["vals"]] for e in sl] for sl in st["slots"]}}
+
+    def judge(fid, res, what):
+        if res[0] == "raise":
+            c.known_probe(fid, True, what + ": raised " + res[1])
+            return
+        first, second = res[1]
+        same = P.canon_store(first) == P.canon_store(second)
+        c.known_probe(fid, not same, "%s: first read %s, after write() and re-read %s" % (what, show(first), show(second)))
+
+    T3 = [0, H, 2 * H]
+    # F57: binary, series not in increasing member order
+    f = {"tz": None, "recs": [{"hdr": hdr(0, 1, H, 0, 2 * H), "evt": [], "evs": []},
+                              {"hdr": hdr(0, 0, H, 0, 2 * H), "evt": [], "evs": []}],
+         "bin": [xv(x) for x in (1.0, 2.0, 3.0, 10.0, 20.0, 30.0)]}
+    judge("F57", roundtrip("f57", f, True), "binary PI file with series (A, member 1), (A, member 0)")
+    # F58: binary ensemble file with a series without ensembleMemberIndex
+    f = {"tz": None, "recs": [{"hdr": hdr(0, None, H, 0, 2 * H), "evt": [], "evs": []},
+                              {"hdr": hdr(1, 0, H, 0, 2 * H), "evt": [], "evs": []},
+                              {"hdr": hdr(1, 1, H, 0, 2 * H), "evt": [], "evs": []}],
+         "bin": [xv(float(x)) for x in (1, 2, 3, 10, 20, 30, 40, 50, 60)]}
+    judge("F58", roundtrip("f58", f, True), "binary PI ensemble file with A without member index, B in members 0 and 1")
+    # F59: nonequidistant XML ensemble (E = 3) with a padded series without ensembleMemberIndex
+    TN = [0, H, 3 * H]
+    f = {"tz": None, "bin": None,
+         "recs": [{"hdr": hdr(0, None, None, TN[2], TN[2]), "evt": TN[2:], "evs": [xv(7.0)]}]
+         + [{"hdr": hdr(1, m, None, TN[0], TN[2]), "evt": TN, "evs": [xv(1.0 + m), xv(2.0), xv(3.0)]} for m in range(3)]}
+    judge("F59", roundtrip("f59", f, False),
+          "nonequidistant XML PI ensemble (3 members) with a padded series A without member index")
